@@ -1828,14 +1828,15 @@ func (ctx *RenderContext) toBool(val interface{}) bool {
 		return false
 	}
 
+	// One type per case: in a case that lists several types v keeps the interface type, and
+	// v != 0 would compare it with the int constant 0, which no int64, uint or float64 zero equals.
+	// The other number types are handled by kind below.
 	switch v := val.(type) {
 	case bool:
 		return v
-	case int, int8, int16, int32, int64:
+	case int:
 		return v != 0
-	case uint, uint8, uint16, uint32, uint64:
-		return v != 0
-	case float32, float64:
+	case float64:
 		return v != 0
 	case string:
 		return v != ""
